@@ -173,19 +173,30 @@ fn format_variant(
                     if field_attr.skip {
                         quote!(format!("{{ \"{}\": \"{}\" }}", #tag, #ts_name))
                     } else {
-                        quote!(format!("{{ \"{}\": \"{}\" }} & {}", #tag, #ts_name, #parsed_ty))
+                        intersect_with_tag(quote!(#tag), &ts_name, &parsed_ty)
                     }
                 }
                 Fields::Unit => quote!(format!("{{ \"{}\": \"{}\" }}", #tag, #ts_name)),
-                _ => {
-                    quote!(format!("{{ \"{}\": \"{}\" }} & {}", #tag, #ts_name, #parsed_ty))
-                }
+                _ => intersect_with_tag(quote!(#tag), &ts_name, &parsed_ty),
             },
         },
     };
 
     formatted_variants.push(formatted);
     Ok(())
+}
+
+/// `{ "tag": "Variant" } & <content>` for the variant of an internally tagged enum. `&` binds
+/// tighter than `|`: a content that is a union (an inlined enum) has to be parenthesised.
+fn intersect_with_tag(tag: TokenStream, ts_name: &Expr, content: &TokenStream) -> TokenStream {
+    quote!({
+        let content: String = #content;
+        if content.contains(" | ") {
+            format!("{{ \"{}\": \"{}\" }} & ({})", #tag, #ts_name, content)
+        } else {
+            format!("{{ \"{}\": \"{}\" }} & {}", #tag, #ts_name, content)
+        }
+    })
 }
 
 // bindings for an empty enum (`never` in TS)
